@@ -798,8 +798,8 @@ def run(ctx):
     rc2, mout, merr = vlib.sh2([rmodel], stdin="\n".join(feed) + "\n", timeout=2400)
     mlines = [l for l in mout.split("\n") if l]
     mism, oracle_bad = [], []
-    stats = {"script": 0, "table": 0, "sentence": 0, "completion_cands": 0, "long_code_cands": 0, "tail_hits": 0,
-             "candidates": 0, "empty": 0, "distinct_dropped": 0, "fetch_more": 0, "prefix_phrases": 0, "ties": 0}
+    stats = {"script": 0, "table": 0, "sentence": 0, "completion_cands": 0, "long_code_cands": 0, "candidates": 0, "empty": 0,
+             "prefix_phrases": 0, "algebra_cases": 0, "lazy_cases_with_10_or_more_extending_keys": 0, "inputs_with_delimiter": 0}
     nontrivial = set()
     if rc2 != 0 or len(mlines) != len(index):
         ctx.violation("model-run", "the extracted model did not answer every case", {"rc": rc2, "stderr": merr[-2000:],
@@ -819,6 +819,12 @@ def run(ctx):
         stats["completion_cands"] += sum(c["type"] == "completion" for c in case["cands"])
         stats["long_code_cands"] += sum(1 for c in case["cands"] if c["type"] in ("phrase", "completion") and len(c["code"] or []) > 3)
         stats["prefix_phrases"] += sum(1 for c in case["cands"] if kind == "table" and has_sent and c["type"] == "table")
+        v_ = by_id[bk["id"]][1]
+        stats["algebra_cases"] += bool(v_.get("algebra"))
+        stats["inputs_with_delimiter"] += any(ch in v_["delims"].encode() for ch in case["input"])
+        if kind == "table" and v_["completion"]:
+            code_ = case["input"].rstrip(v_["delims"].encode())
+            stats["lazy_cases_with_10_or_more_extending_keys"] += sum(1 for k, _ in bk["keys"] if k.startswith(code_)) >= 10
         if len(ic) >= 2:
             nontrivial.add((bk["id"].split("_")[0], kind, tuple(ic)))
         if mc != ic:
@@ -907,29 +913,28 @@ MUTATION_DRILLS = []
 
 MANIFEST = {
     "category": "proof",
-    "technique": "Coq theorems over a port of Table::Query / DictEntryIterator / Script- and TableTranslation (abstract syllable graph, "
-                 "table index and prism) + extracted-model/real-translator correspondence + brute-force reference from the source rows",
-    "text": "pending",
-    "note": "pending",
+    "technique": "Coq theorems over a port of Table::Query / match_extra_code / DictEntryIterator / Script- and TableTranslation "
+                 "(abstract syllable graph, table index and prism; Poet as oracle) + extracted-model/real-translator correspondence "
+                 "+ brute-force reference from the source rows",
+    "text": "Properties_C07.v (27 theorems, no axioms) proves of the model, for every graph, table, prism and input: Table::Query "
+            "returns at each end position exactly the index codes labelling a path (codes > 3 syllables through the tail page and "
+            "match_extra_code, registered at the farthest end); the script translator's phrase candidates are exactly the table "
+            "entries whose code is spelled from 0 (C07_script_candidates_exact, C07_collector_exact), every such entry survives "
+            "DistinctTranslation, longer matches come first, inside one end position best head first (weight + credibility, "
+            "same-code dictionary-weight order: partial), the sentence is a concatenation of spelled entries covering the "
+            "interpreted input (Poet's answer type assumed), nothing else is emitted; table translator: entries whose code equals "
+            "the input in non-increasing weight order (refuted for the code before fix 3b72e76, proved after), none but those when "
+            "completion is off, with completion only entries of keys extending the input (any number of fetches), exact-then-"
+            "completion order proved for fewer than 10 extending keys (partial).  Tie: generated dictionaries and schemas "
+            "({script,table} x completion x sentence x delimiters x anchored derive/xform algebra) are deployed with the real "
+            "rime_deployer; prism, table index, syllable graph and the full candidate list (type, range, text, code, sentence "
+            "components) of the real translators are dumped for every input up to a length bound and random longer ones; the "
+            "extracted model must print the same list, and a brute-force reference from the source rows judges the property itself.",
+    "note": "Level proof, partial: the syllable graph (C08), the compiled index (C06) and the prism (C09) are inputs of the model "
+            "(well-formedness hypotheses wf_graph, graph_pruned, wf_table, table_sorted; the real dumps are fed to the model), Poet "
+            "is an oracle (answer type validated on every sentence), weights are exact integers (no double rounding), "
+            "std::partial_sort modelled as libstdc++'s swap loop, learning off, one table, max_homographs=1.  Known findings on the "
+            "unchanged tree: prefix phrases off a complete segmentation in the table translator's sentence mode; remaining_code "
+            "computed from the syllable name under spelling algebra.  Fixed: unsorted first candidate of the table translator "
+            "(3b72e76).  Print Assumptions: all theorems closed under the global context.",
 }
-
-
-if __name__ == "__main__":       # developer mode: python3 checks/c07.py  -> dumps the harness output of a small plan
-    class C:
-        tier, seed = "quick", 1
-
-        def scratch(self, n=""):
-            p = "/var/tmp/c07-dev/" + n
-            os.makedirs(p, exist_ok=True)
-            return p
-    ctx = C()
-    rng = random.Random(1)
-    dicts, schemas, files = make_plan(ctx, rng)
-    b = vlib.librime_build("asan")
-    ws = build_workspace(files, b)
-    exe = vlib.cxx_build(os.path.join(vlib.WORK, "bin", "c07"), [HARNESS], flags="-I%s/src" % b,
-                         libs="-L%s/lib -lrime -lglog -Wl,-rpath,%s/lib" % (b, b))
-    inputs_of = {sid: gen_inputs(rng, d, v, 3, 20, 12) for sid, d, v in schemas}
-    rc, out, err = run_harness(ctx, exe, ws, schemas, inputs_of)
-    print(rc, len(out), err[-3000:])
-    open("/var/tmp/c07-dev/out.txt", "w").write(out)
